@@ -81,6 +81,21 @@ def work(job):
                                    '| a | zz%s', 'term\n: def zz%s', '> quote zz%s', '```\ncode zz%s', 'Title: t\n\n[link]: http://example.com/zz%s']) % tail
                 sl = []
                 r.stats['eof_documents'] += 1
+            elif rng.random() < 0.05:
+                # attribute values of links and images (dimensions are unit-corrected and case-mapped by the LaTeX and OpenDocument writers)
+                def dim():
+                    return rng.choice(['12', '3 ', '', '0.5']) + rng.choice(SPECIAL) + rng.choice(['m', 'PX', 'Cm', '', rng.choice(SPECIAL)]) + rng.choice(['', rng.choice(SPECIAL)])
+                form = rng.random()
+                if form < 0.4:
+                    text = 'Before ![alt zz](pic.png "t" width="%s" height="%s") after.\n' % (dim(), dim())
+                elif form < 0.7:
+                    text = '![fig zz][f]\n\nAfter.\n\n[f]: img.png width="%s" height="%s"\n' % (dim(), dim())
+                elif form < 0.85:
+                    text = '![fig zz](img.png width=%s)\n' % dim().replace(' ', '')
+                else:
+                    text = 'A [link zz](http://example.com/ "t" class="%s" width="%s") here.\n' % (dim(), dim())
+                sl = []
+                r.stats['attribute_value_documents'] += 1
             elif rng.random() < 0.3:
                 # byte-special characters alone, right after a block marker or right before the line end (where stripping code cuts by bytes)
                 text, sl = slots.build(rng, lead_payload, kinds=slots.LEADING_KINDS, nslots=rng.randint(3, 6), eol=rng.choice(['\n', '\n', '\r\n']))
@@ -110,6 +125,19 @@ def work(job):
                     except Exception:
                         r.stats['package unreadable (C09 territory)'] += 1
                         continue
+                if fname in ('opml', 'itmz') and i % 5 == 0 and strict_utf8(rep.out if fname == 'opml' else b'') is None:
+                    # the way back: the outline just written is read again (--opml / --itmz) and rendered; entities and character
+                    # references in it are decoded next to multi-byte characters
+                    back = D.EXT['PARSE_OPML'] if fname == 'opml' else D.EXT['PARSE_ITMZ']
+                    for f2 in ('mmd', 'html', 'latex', 'fodt', 'opml'):
+                        e2 = (ext | back) & ~D.EXT['TRANSCLUDE']
+                        rq2 = D.req_to_json('asan', 'CONVERT', D.FMT[f2], e2, lang, 1 | (1 << 4), [rep.out])
+                        rep2 = s.call('asan', 'CONVERT', D.FMT[f2], e2, lang, 1 | (1 << 4), [rep.out], crash_is_violation=False)
+                        r.evaluations += 1
+                        if rep2 is None or rep2.status:
+                            continue
+                        outs.append(('%s:after-%s-import' % (f2, fname), rep2.out))
+                        r.stats['outputs_after_import_validated'] += 1
                 for name, data in outs:
                     r.stats['outputs_validated'] += 1
                     r.stats['bytes_validated'] += len(data)
